@@ -40,6 +40,7 @@ var harnesses = map[string]*harnessConfig{
 		Mounts: append(append([]string{}, commonMounts...),
 			"internal/verifsim/ref/refcfg=sim/ref/refcfg",
 			"internal/verifsim/ref/refreport=sim/ref/refreport",
+			"internal/verifsim/mgen=sim/mgen",
 			"cmd/gotelemetry=sim/harness/h2",
 			"internal/configstore=sim/shims/configstore",
 			"internal/counter=sim/shims/counter"),
